@@ -19,11 +19,13 @@ ONCE = ['poller:start', 'writer:start', 'writer:opened']
 WRITER_LOOP = ['writer:recv']
 
 # env=stale : a socket file nobody listens on at chronyd's path (chronyd was killed / is restarting): connect() -> ECONNREFUSED
-# env=flock : another process holds an exclusive flock on the daemon's directory and on its segment file
+# env=flock : other processes hold an exclusive flock on the daemon's directory, and flock + POSIX (fcntl) write locks on a
+#             lock file and on the segment file itself (a previous instance that has not gone yet, an operator's tool)
 WRAP = ('mount -t tmpfs tmpfs /run || exit 99; : > /run/.cbharness_private || exit 98; '
         'for a in "$@"; do case "$a" in '
         'env=stale) mkdir -p /run/chrony && python3 -c "import socket; s=socket.socket(socket.AF_UNIX, socket.SOCK_DGRAM); s.bind(\'/run/chrony/chronyd.sock\'); s.close()" || exit 97;; '
-        'env=flock) mkdir -p /run/clockbound && : > /run/clockbound/shm.lock && (flock -x /run/clockbound sleep 40 </dev/null >/dev/null 2>&1 & flock -x /run/clockbound/shm.lock sleep 40 </dev/null >/dev/null 2>&1 &) ; sleep 0.2;; '
+        'env=flock) mkdir -p /run/clockbound && : > /run/clockbound/shm.lock && (flock -x /run/clockbound sleep 40 </dev/null >/dev/null 2>&1 & flock -x /run/clockbound/shm.lock sleep 40 </dev/null >/dev/null 2>&1 & '
+        'python3 -c "import fcntl,time,os; fs=[open(p,\'a+b\') for p in (\'/run/clockbound/shm\',\'/run/clockbound/shm.lock\')]; [fcntl.lockf(f,fcntl.LOCK_EX) for f in fs]; g=open(\'/run/clockbound/shm\',\'rb\'); fcntl.flock(g,fcntl.LOCK_EX); time.sleep(40)" </dev/null >/dev/null 2>&1 &) ; sleep 0.4;; '
         'esac; done; '
         'exec "$0" threads "$@"')
 
